@@ -383,7 +383,13 @@ func (c *syntaxLoader) collectDirectives(p ast.ParserSection) {
 	}
 	// Sets pass 2. Resolve the rhs.
 	for _, s := range setsToResolve {
-		*c.out.Sets[s.index] = *c.convertSet(s.expr)
+		set := c.convertSet(s.expr)
+		if slices.Index(c.out.Sets, set) >= 0 {
+			// The whole expression is a reference to a named set, which may be defined later (or be
+			// this very set) and is still empty at this point. Refer to it instead of copying it.
+			set = &syntax.TokenSet{Kind: syntax.Union, Sub: []*syntax.TokenSet{set}, Origin: s.expr.TmNode()}
+		}
+		*c.out.Sets[s.index] = *set
 	}
 
 	for _, mapping := range c.mapping {
